@@ -34,6 +34,12 @@ def main():
             out["aborted"] = True
         except _Hang:
             out["hung"] = True
+        except Exception as e:  # noqa: BLE001
+            from .core import raised_in_library, LIB_RAISED
+            if raised_in_library(e):
+                ctx.failed.append((LIB_RAISED, "%s: %s" % (type(e).__name__, str(e)[:120])))
+            else:
+                out["error"] = traceback.format_exc()
         except BaseException:
             out["error"] = traceback.format_exc()
         finally:
